@@ -753,10 +753,11 @@ class Evaluator:
         if isinstance(v, int):
             return Num(sp.Integer(v))
         if isinstance(v, float):
-            return Num(sp.Rational(repr(v)) if "e" not in repr(v) and "inf" not in repr(v) and "nan" not in repr(v)
-                       else sp.nsimplify(repr(v), rational=True), isfloat=True)
+            if v != v or v in (float("inf"), float("-inf")):
+                return Num(sp.nan if v != v else (sp.oo if v > 0 else -sp.oo), isfloat=True)
+            return Num(sp.Rational(*self.ext.float_ratio(repr(v))), isfloat=True)      # the literal's exact decimal value
         if isinstance(v, complex):
-            re_, im_ = sp.nsimplify(v.real, rational=True), sp.nsimplify(v.imag, rational=True)
+            re_, im_ = sp.Rational(*self.ext.float_ratio(repr(v.real))), sp.Rational(*self.ext.float_ratio(repr(v.imag)))
             return Num(re_ + sp.I * im_)
         if isinstance(v, str):
             return StrV(v)
